@@ -29,10 +29,18 @@ RULE = ("Samplers: generated axis-aligned boxes (dimension 1-5; unit / centred /
         "swapped resolutions). After every call the arguments are compared with a snapshot (box and its corner sequences, centre Vec, mesh "
         "coordinates / connectivity / attribute names, control points). Scales: meshes 1e-6..1e6, radii 1e-6..1e6 (class 'r extreme'), control "
         "nets 'tiny' (1e-6) / 'huge' (1e6); integer-typed centres, radii, box corners and control nets (numpy-int / vec-int). "
+        "Class 'edited-net' (50 % of the curves / patches): after the first round of evaluations and exports a second, independent object "
+        "is evaluated, then 1-2 control points of the FIRST object are edited (rebinding pts[i] / pts[i][j] or writing components in place) and "
+        "every parameter already used is evaluated again, the export repeated with the same resolution, and finally the arrays returned by "
+        "evaluate are overwritten in place by the caller before the next evaluation; the reference is always the Bernstein form of the control "
+        "points the object reports at that moment. Control points are also handed in as one-shot generators ('ctor=generator'). Size regime (2-4 % "
+        "each): counts 1000-5000, polylines with > 1000 edges, surfaces with > 1000 faces ('big-mesh'), as_polyline(100..150), as_surface with a "
+        "side > 20; between the two requests of a 'second-call' case an independent mesh is sampled. "
         "numpy.random is seeded from the case. non-trivial = box differs from the unit cube and n>0 / "
         "radius != 1 or centre != 0 (n>0) / >=2 edges or faces and n>0 / degree >= 2 (curves) / n1 != n2 (patches); "
         "distinct = distinct realised cases.")
 ASSUMPTIONS = [
+    "the control points of a curve / patch object are its public `pts`; editing them is an ordinary use and later answers refer to the edited net",
     "grid mode: 'nearest perfect power' is read as round(n**(1/d))**d (the integer nearest to the d-th root), as in DESIGN C19",
     "a box with mini >= maxi on some axis is 'empty' (AABB.is_empty) and sampling it must raise, as documented",
     "patch convention: evaluate(u, v) runs u along the inner index of the control net and v along the outer one (the code's own, undocumented, convention)",
